@@ -24,6 +24,7 @@ Oracle: none needed (relational); the classification above is computed from the 
 A divergence is re-run on freshly built parsers before it is reported (so that a history effect, property C09, is not
 mistaken for a channel effect).  The canonical key names the type, the value, the position and the diverging channels.
 """
+import dataclasses
 import enum
 import itertools
 import json
@@ -314,11 +315,12 @@ def plan(t, key, jsonnet, full):
                 if "." in key:
                     out.append((mode, "string", "dotted"))
             continue
+        # quick tier: json and omegaconf only for the flat key and only on QUICK_OTHER_MODES
         for ch in TEXT:
-            if full or mode == "yaml" or ch in QUICK_OTHER_MODES:
+            if full or mode == "yaml" or (ch in QUICK_OTHER_MODES and "." not in key):
                 out.append((mode, ch, "-"))
         for ch in TYPED:
-            if not (full or mode == "yaml" or ch in QUICK_OTHER_MODES):
+            if not (full or mode == "yaml" or (ch in QUICK_OTHER_MODES and "." not in key)):
                 continue
             if ch == "argvgroup":
                 if key.startswith("dc."):  # only the dataclass style has a whole-group option (C07's finding for the dotted style)
@@ -399,7 +401,11 @@ def run_chunk(chunk):
         try:
             with open("file.txt", "w") as f:
                 f.write("x\n")
-            for t, v, key, jsonnet, full in chunk:
+            for item in chunk:
+                if item[0] == "multi":
+                    out.append(run_multi(item[1], item[2], tmp, item[3]))
+                    continue
+                t, v, key, jsonnet, full = item
                 ambiguous = admits_text(t) and not isinstance(v, str)
                 outcomes = run_setting(t, v, key, jsonnet, full, tmp)
                 members = list(outcomes)
@@ -429,6 +435,167 @@ def run_chunk(chunk):
     return out
 
 
+# ---------------------------------------------------------------------------------------------- several keys in one document
+@dataclasses.dataclass
+class DCH:
+    z: int = 0
+
+
+@dataclasses.dataclass
+class DCM:
+    k: int = 0
+    o: int = 0
+    h: DCH = dataclasses.field(default_factory=DCH)
+
+
+MULTI = {"k": 1, "o": 3, "h.z": 5}  # leaf below the group -> value
+
+
+def spellings(group, leaf):
+    """Every way to write the key group.leaf as a path of mapping keys: each dot either splits or stays inside a key."""
+    parts = (group + "." + leaf).split(".")
+    out = []
+    for mask in range(2 ** (len(parts) - 1)):
+        path, cur = [], parts[0]
+        for i in range(1, len(parts)):
+            if mask >> (i - 1) & 1:
+                cur += "." + parts[i]
+            else:
+                path.append(cur)
+                cur = parts[i]
+        out.append(path + [cur])
+    return out
+
+
+def build_doc(items):
+    """The JSON object in which the items (path, value) appear in this order; nested mappings with the same key are one mapping."""
+    doc = {}
+    for path, v in items:
+        node = doc
+        for p in path[:-1]:
+            node = node.setdefault(p, {})
+        node[path[-1]] = v
+    return doc
+
+
+def shape(path):
+    """The spelling of one key with the names abstracted: G = the group, a, b = the levels below; '/' = a nested mapping, '.' = a dot inside a mapping key."""
+    out, depth = [], 0
+    for comp in path:
+        names = []
+        for _ in comp.split("."):
+            names.append("G" if depth == 0 else "ab"[depth - 1])
+            depth += 1
+        out.append(".".join(names))
+    return "/".join(out)
+
+
+def multi_parser(mode):
+    from jsonargparse import ArgumentParser
+
+    if ("multi", mode) not in PARSERS:
+        p = ArgumentParser(exit_on_error=False, env_prefix="APP", parser_mode=mode)
+        p.add_argument("--cfg", action="config")
+        for leaf in MULTI:
+            p.add_argument("--g." + leaf, type=int, default=0)
+        p.add_argument("--dc", type=DCM, default=DCM())
+        PARSERS[("multi", mode)] = p
+    return PARSERS[("multi", mode)]
+
+
+def multi_outcomes(group, items, tmp, jsonnet):
+    """Outcome of the options on the command line (the reference) and of the document through every document channel."""
+    doc = json.dumps(build_doc(items))
+    out = {}
+
+    def attempt(mode, ch, fn):
+        try:
+            with quiet():
+                res = fn(multi_parser(mode)).clone()
+            res.pop("cfg", None)
+            out[(mode, ch, "-")] = ["ok", norm(res)]
+        except BaseException:  # noqa
+            out[(mode, ch, "-")] = ["rej"]
+
+    def with_env(p, name_, value):
+        os.environ[name_] = value
+        try:
+            return p.parse_args([], env=True)
+        finally:
+            del os.environ[name_]
+
+    def from_file(p, how):
+        with open(os.path.join(tmp, "m.json"), "w") as f:
+            f.write(doc)
+        return p.parse_path("m.json") if how == "path" else p.parse_args(["--cfg=m.json"])
+
+    attempt("yaml", "argv", lambda p: p.parse_args(["--%s=%s" % (".".join(path), v) for path, v in items]))
+    for mode in MODES:
+        if mode == "jsonnet":
+            if jsonnet:
+                attempt(mode, "string", lambda p: p.parse_string(doc))
+            continue
+        attempt(mode, "string", lambda p: p.parse_string(doc))
+        attempt(mode, "object", lambda p: p.parse_object(json.loads(doc)))
+        attempt(mode, "cfgstr", lambda p: p.parse_args(["--cfg=" + doc]))
+        if mode == "yaml":
+            attempt(mode, "cfgfile", lambda p: from_file(p, "cfg"))
+            attempt(mode, "path", lambda p: from_file(p, "path"))
+            attempt(mode, "envcfg", lambda p: with_env(p, "APP_CFG", doc))
+    return doc, out
+
+
+def run_multi(group, items, tmp, jsonnet):
+    def bad(its):
+        doc, out = multi_outcomes(group, its, tmp, jsonnet)
+        return doc, out, len(classes(out, list(out))) > 1
+
+    doc, out, failed = bad(items)
+    viols = []
+    if failed:
+        small = items
+        progress = True
+        while progress and len(small) > 1:  # shrink: drop keys from the document while some channel still disagrees with the command line
+            progress = False
+            for i in range(len(small)):
+                cand = small[:i] + small[i + 1:]
+                if bad(cand)[2]:
+                    small, progress = cand, True
+                    break
+        sdoc, sout = multi_outcomes(group, small, tmp, True)
+        mem = list(sout)
+        groups = classes(sout, mem)
+        ref = next(g for g in groups if ("yaml", "argv", "-") in g[1])
+        rest = [g for g in groups if g is not ref]
+        minority = [d for g in rest for d in g[1]]
+        sym = "different-values" if all(o[0] == "ok" for o in sout.values()) else "accept-vs-reject"
+        vkey = ("multi", sym, {"g": "dotted-group", "dc": "dataclass-group"}[group], ",".join(shape(p) for p, _ in small), "-", label(minority, mem))
+        what = "the options %s give %s; but the document gives, through %s" % (
+            " ".join("--%s=%s" % (".".join(p), v) for p, v in small), show(ref[0]), "; ".join("%s: %s" % (label(g[1], mem), show(g[0])) for g in rest))
+        viols.append((vkey, what[:900], {
+            "parser": "ArgumentParser(exit_on_error=False, env_prefix='APP', parser_mode=<mode>); --cfg action=config; --g.k --g.o --g.h.z int=0; --dc of type "
+                      "`@dataclass DCM: k: int = 0; o: int = 0; h: DCH = DCH()` with `@dataclass DCH: z: int = 0`",
+            "json_document": sdoc, "found_in_document": doc, "outcomes": {"%s/%s" % d[:2]: show(o) for d, o in sout.items()}}))
+    accepted = sum(1 for o in out.values() if o[0] == "ok")
+    return ("case", "multi:%s:%s" % (group, doc), 1, viols, accepted, len(out))
+
+
+def enumerate_multi(thorough):
+    for group in ("g", "dc"):
+        seen = set()
+        leaves = list(MULTI)
+        for r in (1, 2, 3):
+            for subset in itertools.combinations(leaves, r):
+                for spell in itertools.product(*[spellings(group, leaf) for leaf in subset]):
+                    for order in itertools.permutations(range(r)):
+                        items = [(spell[i], MULTI[subset[i]]) for i in order]
+                        text = json.dumps(build_doc(items))
+                        if text in seen:
+                            continue
+                        seen.add(text)
+                        yield ("multi", group, items, thorough or r == 2)
+
+
 # ---------------------------------------------------------------------------------------------- enumeration
 def enumerate_settings(thorough, rng):
     leaves, d1, d2 = terms(thorough)
@@ -436,8 +603,8 @@ def enumerate_settings(thorough, rng):
     for depth, ts in ((0, leaves), (1, d1), (2, d2)):
         for t in ts:
             vals = values(t, rich=(depth == 0 or t in (("list", "str"), ("dict", "str"))))
-            if not thorough and depth == 1 and t[0] == "union" and len(t) == 3:
-                vals = vals[:9]
+            if not thorough and depth == 1 and t[0] == "union":
+                vals = vals[:8]
             if not thorough and depth == 2:
                 vals = vals[:4] + vals[-2:]
             for i, v in enumerate(vals):
@@ -445,7 +612,7 @@ def enumerate_settings(thorough, rng):
                     continue  # bound: a top-level null at a type without None only at the representative types NULL_TYPES
                 n += 1
                 # position: flat for every setting; in the quick tier the dotted group and the dataclass group for every third one each
-                jsonnet = (i in (1, len(vals) - 1) and depth <= 1) or depth == 0 or (thorough and i % 3 == 0)
+                jsonnet = (i == 1 and depth <= 1) or depth == 0 or (thorough and i % 3 == 0)
                 yield (t, v, "k", jsonnet, thorough)
                 if thorough or n % 3 == 0:
                     yield (t, v, "g.k", jsonnet and depth == 0, thorough)
@@ -454,10 +621,10 @@ def enumerate_settings(thorough, rng):
     if thorough:
         # seeded random values: mutate conforming values of random depth-2 terms at one random position
         pool = d1 + d2
-        for _ in range(3000):
+        for _ in range(2000):
             t = rng.choice(pool)
             vals = values(t, rich=False)
-            v = rng.choice(vals)
+            v = rng.choice([x for x in vals if x is not None or admits_none(t)])
             if isinstance(v, list) and v:
                 v = list(v)
                 v[rng.randrange(len(v))] = rng.choice(WRONG_SCALARS + [7, 1.5, True])
@@ -478,11 +645,12 @@ def main():
             jobs = int(a[7:])
         if a.startswith("--limit="):  # debugging aid only
             limit = int(a[8:])
-    settings = list(enumerate_settings(h.thorough, h.rng))
+    settings = list(enumerate_multi(h.thorough)) + list(enumerate_settings(h.thorough, h.rng))
     if limit:
         settings = settings[:: max(1, len(settings) // limit)]
-    size = 40
-    chunks = [settings[i: i + size] for i in range(0, len(settings), size)]
+    multi = [x for x in settings if x[0] == "multi"]
+    single = [x for x in settings if x[0] != "multi"]
+    chunks = [multi[i: i + 10] for i in range(0, len(multi), 10)] + [single[i: i + 40] for i in range(0, len(single), 40)]
     stats = {"deliveries": 0, "accepted": 0, "all_accept": 0, "all_reject": 0}
     if jobs > 1:
         ctx = multiprocessing.get_context("fork")
@@ -496,11 +664,14 @@ def main():
                       "leaves as a Union; every permutation of 3 three-member unions), %d selected of depth 2; values: type-directed conforming values, values wrong at one "
                       "position (top-level null at a type without None only at %d representative types), %d look-alike strings at str positions; key flat%s; channels argv, env, "
                       "parse_env, --cfg file, --cfg string, env config, parse_string, parse_path, parse_object, whole-group option (dataclass) x dotted/nested spelling x "
-                      "parser_mode yaml (all channels) / json / omegaconf (%s) (+ jsonnet on argv and parse_string for %s)%s"
+                      "parser_mode yaml (all channels) / json / omegaconf (%s) (+ jsonnet on argv and parse_string for %s)%s; several keys in one "
+                      "document: every non-empty subset of {G.k, G.o, G.h.z} (G a dotted group / a dataclass group) x every spelling of every key (each dot splits "
+                      "or stays inside a mapping key) x every order of the keys, through parse_string, parse_object, --cfg string (yaml, json, omegaconf), "
+                      "--cfg file, parse_path, env config (yaml), parse_string (jsonnet), against the same options on the command line"
                       % (len(leaves), len(d1), len(d2), len(NULL_TYPES), len(TRICKY),
                          ", dotted group and dataclass group" if h.thorough else " (every setting), dotted group and dataclass group (every third setting each)",
-                         "all channels" if h.thorough else "argv, parse_string, parse_object, whole-group option",
-                         "the leaf types, two values of every depth-1 type" + (", every third value of every type at the flat key" if h.thorough else ""), "; + 3000 seeded random mutated values" if h.thorough else "")))
+                         "all channels" if h.thorough else "argv, parse_string, parse_object at the flat key",
+                         "the leaf types, one value of every depth-1 type" + (", every third value of every type at the flat key" if h.thorough else ""), "; + 2000 seeded random mutated values" if h.thorough else "")))
 
 
 def collect(h, results, stats):
